@@ -101,7 +101,7 @@ static void check_ulabel(const char *pre, int row) {
 
 /* mode 6531 with a spelling that only IDNA mapping turns into the name (alternative dots, fullwidth letters, soft hyphens, long s):
  * the class must be that of the converted name (conversion done independently by the harness) */
-static int C_MAPPED;
+static int C_MAPPED, C_LIBROWS;
 static void check_class_u(const char *sub, const char *u) {
     size_t n = strlen(u); if (n == 0 || n > 900) return;
     char *a = NULL; int cr = idn2_to_ascii_8z(u, &a, IDN2_NONTRANSITIONAL);
@@ -151,6 +151,22 @@ static void reserved_extensions(const char *suf) {
 /* ------------------------------- C07 generators ------------------------------- */
 static char L63[64];
 static const char *PRE[8];
+/* the table the library actually walks: every row of its own tld_list as the last label.  A row that the shipped CSV data does not
+ * have (or has with another class) is a label the library classifies differently from the shipped IANA table; the CSV rows alone cannot
+ * reveal an extra row.  One shard per 64 rows. */
+static long libtable_rows(void) { long n = 0; while (tld_list[n].domain) n++; return n; }
+static void libtable_shard(long shard, void *arg) {
+    (void)arg; char d[400], u[300];
+    for (long i = shard * 64; i < shard * 64 + 64; i++) {
+        if (!tld_list[i].domain) return;
+        const char *t = tld_list[i].domain; size_t tl = strlen(t); if (tl == 0 || tl > 200) continue;
+        snprintf(d, sizeof d, "mail.%s", t); check_class("libtable", d, strlen(d));
+        for (size_t k = 0; k <= tl; k++) u[k] = (char)toupper((unsigned char)t[k]);
+        snprintf(d, sizeof d, "a.b.%s", u); check_class("libtable", d, strlen(d));
+        MC_ADD(C_LIBROWS, 1);
+    }
+}
+
 static void rows_shard(long shard, void *arg) {
     (void)arg; const char *t = RT_PUNY.row[shard].domain; size_t n = strlen(t); char v[300], d[700];
     for (int variant = 0; variant < 5; variant++) {
@@ -299,7 +315,7 @@ int main(int argc, char **argv) {
 #endif
     C_CASES = mc_counter("domains_classified"); C_SPECIAL = mc_counter("expected_special"); C_LISTED = mc_counter("expected_listed_class");
     C_UNLISTED = mc_counter("expected_invalid_tld"); C_NOTFQDN = mc_counter("expected_not_fqdn"); C_SKIP6531 = mc_counter("mode6531_idn_error_on_ascii_skipped");
-    C_ULABEL = mc_counter("u_label_cases"); C_MAPPED = mc_counter("idna_mapped_spellings");
+    C_ULABEL = mc_counter("u_label_cases"); C_LIBROWS = mc_counter("library_table_rows_walked"); C_MAPPED = mc_counter("idna_mapped_spellings");
     if (rt_load()) return 2;
     char p[1024]; snprintf(p, sizeof p, "%s/data/raw.csv", rt_repo()); if (rt_read_csv(p, &RAW, 1)) return 2;
     for (int m = 0; m < 4; m++) {
@@ -312,6 +328,7 @@ int main(int argc, char **argv) {
     long nrows = RT_PUNY.n; if (!mc_thorough) nrows = RT_PUNY.n;   /* quick covers every row too: the table is small */
     mc_parallel("rows: every CSV row x 5 case variants x 0-4 preceding labels; near misses; U-labels", nrows, rows_shard, NULL);
     mc_parallel("short: every last label of 1-3 chars", 36, short_shard, NULL);
+    mc_parallel("libtable: every row of the library's own tld_list as last label (lower and upper case)", (libtable_rows() + 63) / 64, libtable_shard, NULL);
 #else
     mc_parallel("reserved: 8 suffixes x preceding label length 0..63 x case patterns x 1-3 labels", 8 * 64, res_shard, NULL);
     mc_parallel("neighbours: one-edit neighbours of the 8 suffixes x 9 prefixes x 2 cases", 8, neigh_shard, NULL);
